@@ -2,7 +2,8 @@
    checkFunc (see Bridge/BrChecker.v) *)
 From Coq Require Import ZArith Bool List String Lia.
 Require Import X.Base.Num X.Base.Value X.Syn.Ast X.Sem.Prim X.Ty.Types X.Ty.TypesTable X.Ty.Checker
-               X.Ty.CheckProofs X.Ty.CheckRules X.Ty.CheckRulesProofs X.gen.GenWeights X.gen.GenChecker X.Bridge.BrCheckerRules.
+               X.Ty.CheckProofs X.Ty.CheckRules X.Ty.CheckRulesProofs X.Ty.CheckRulesLoops X.gen.GenWeights X.gen.GenChecker
+               X.Bridge.BrCheckerRules.
 Import ListNotations.
 Local Open Scope string_scope.
 Local Open Scope list_scope.
@@ -38,7 +39,7 @@ Ltac evc :=
        List.length Z.of_nat Pos.of_succ_nat Z.eqb Pos.eqb Pos.succ]; ev.
 
 Lemma node_builtin_len a x rest cols st :
-  child_ok x -> VN cols (EBuiltin a BiLen (x :: rest)) st = Some (visit c cols (EBuiltin a BiLen (x :: rest)) st).
+  child_ok cols x st -> VN cols (EBuiltin a BiLen (x :: rest)) st = Some (visit c cols (EBuiltin a BiLen (x :: rest)) st).
 Proof.
   intros Hx. go. rewrite Hx. cbn [visit]. destruct (visit c cols x st) as [[t x'] st1]. run.
   unfold len_rule, emit, fail_at, record. crack; fin.
@@ -50,7 +51,8 @@ Proof. go. cbn [visit]. unfold fail_at, record. fin. Qed.
 
 Ltac closure_tac Hx Hcl :=
   go; rewrite Hx; cbn [visit];
-  match goal with |- context [visit c ?cl ?x ?s] => destruct (visit c cl x s) as [[? ?] ?] end; run;
+  match goal with |- context [visit c ?cl ?x ?s] =>
+    let V := fresh "V" in destruct (visit c cl x s) as [[? ?] ?] eqn:V; try rewrite V in Hcl; cbn [fst snd] in Hcl end; run;
   match goal with |- context [is_array ?t] => destruct (is_array t) eqn:IsArr end; run; [|unfold fail_at, record; fin];
   rewrite Hcl; cbn [visit];
   match goal with |- context [visit c ?cl ?x ?s] => destruct (visit c cl x s) as [[? ?] ?] end; run;
@@ -58,7 +60,8 @@ Ltac closure_tac Hx Hcl :=
 
 Lemma node_builtin_pred a b x ac body rest cols st :
   b = BiAll \/ b = BiNone \/ b = BiAny \/ b = BiOne ->
-  child_ok x -> child_ok (EClosure ac body) ->
+  child_ok cols x st ->
+  child_ok (fst (fst (visit c cols x st)) :: cols) (EClosure ac body) (snd (visit c cols x st)) ->
   VN cols (EBuiltin a b (x :: EClosure ac body :: rest)) st
   = Some (visit c cols (EBuiltin a b (x :: EClosure ac body :: rest)) st).
 Proof.
@@ -70,25 +73,29 @@ Proof.
 Qed.
 
 Lemma node_builtin_map a x ac body rest cols st :
-  child_ok x -> child_ok (EClosure ac body) ->
+  child_ok cols x st ->
+  child_ok (fst (fst (visit c cols x st)) :: cols) (EClosure ac body) (snd (visit c cols x st)) ->
   VN cols (EBuiltin a BiMap (x :: EClosure ac body :: rest)) st
   = Some (visit c cols (EBuiltin a BiMap (x :: EClosure ac body :: rest)) st).
 Proof. intros Hx Hcl. closure_tac Hx Hcl. Qed.
 
 Lemma node_builtin_count a x ac body rest cols st :
-  child_ok x -> child_ok (EClosure ac body) ->
+  child_ok cols x st ->
+  child_ok (fst (fst (visit c cols x st)) :: cols) (EClosure ac body) (snd (visit c cols x st)) ->
   VN cols (EBuiltin a BiCount (x :: EClosure ac body :: rest)) st
   = Some (visit c cols (EBuiltin a BiCount (x :: EClosure ac body :: rest)) st).
 Proof. intros Hx Hcl. closure_tac Hx Hcl. Qed.
 
 Lemma node_builtin_filter a x ac body rest cols st :
-  child_ok x -> child_ok (EClosure ac body) ->
+  child_ok cols x st ->
+  child_ok (fst (fst (visit c cols x st)) :: cols) (EClosure ac body) (snd (visit c cols x st)) ->
   VN cols (EBuiltin a BiFilter (x :: EClosure ac body :: rest)) st
   = Some (visit c cols (EBuiltin a BiFilter (x :: EClosure ac body :: rest)) st).
 Proof.
   intros Hx Hcl.
   go; rewrite Hx; cbn [visit];
-  match goal with |- context [visit c ?cl ?x ?s] => destruct (visit c cl x s) as [[t x'] st1] end; run.
+  match goal with |- context [visit c ?cl ?x ?s] => destruct (visit c cl x s) as [[t x'] st1] eqn:V end;
+  try rewrite V in Hcl; cbn [fst snd] in Hcl; run.
   destruct (is_array t) eqn:IsArr; run; [|unfold fail_at, record; fin].
   rewrite Hcl; cbn [visit];
   match goal with |- context [visit c ?cl ?x ?s] => destruct (visit c cl x s) as [[tb body'] st2] end; run.
@@ -98,4 +105,38 @@ Proof.
   destruct (array_has_elem t IsArr IsI) as (Nn & el & [U | U] & El); rewrite Nn, U; run; rewrite <- El; reflexivity.
 Qed.
 
+
+(* ---------------- ArrayNode, MapNode: the loop over the elements is the model's vlist *)
+Lemma array_scope_ok (w0 : gv) : loop_scope_ok 2%nat [(0%nat, w0)].
+Proof. split; intros w; reflexivity. Qed.
+
+Lemma node_array a es cols st :
+  seq_ok c rec cols es st ->
+  VN cols (EArray a es) st = Some (visit c cols (EArray a es) st).
+Proof.
+  intros Hes. go.
+  match goal with |- context [range_loop ?b (List.length ?l) O (mkG ?en ?cur ?cl ?er) ?k] =>
+    change (range_loop b (List.length l) O (mkG en cur cl er) k)
+      with (range_loop (visit_body c M rec (EArray a es) (run_proc c M rec (EArray a es) methods 2) "Nodes" 2)
+                       (List.length l) (List.length (@nil expr)) (mkG en cur cl er) k);
+    rewrite (visit_loop c M rec (EArray a es) (run_proc c M rec (EArray a es) methods 2) "Nodes" 2
+                        l [] [] en cur cl er k (array_scope_ok _) eq_refl eq_refl eq_refl Hes)
+  end.
+  rewrite visit_array. destruct (CheckProofs.vlist c cols es st) as [es' st1]. run. reflexivity.
+Qed.
+
+Lemma node_map a ps cols st :
+  seq_ok c rec cols ps st ->
+  VN cols (Ast.EMap a ps) st = Some (visit c cols (Ast.EMap a ps) st).
+Proof.
+  intros Hes. go.
+  match goal with |- context [range_loop ?b (List.length ?l) O (mkG ?en ?cur ?cl ?er) ?k] =>
+    change (range_loop b (List.length l) O (mkG en cur cl er) k)
+      with (range_loop (visit_body c M rec (Ast.EMap a ps) (run_proc c M rec (Ast.EMap a ps) methods 2) "Pairs" 2)
+                       (List.length l) (List.length (@nil expr)) (mkG en cur cl er) k);
+    rewrite (visit_loop c M rec (Ast.EMap a ps) (run_proc c M rec (Ast.EMap a ps) methods 2) "Pairs" 2
+                        l [] [] en cur cl er k (array_scope_ok _) eq_refl eq_refl eq_refl Hes)
+  end.
+  rewrite visit_map. destruct (CheckProofs.vlist c cols ps st) as [es' st1]. run. reflexivity.
+Qed.
 End Builtins.
